@@ -89,6 +89,35 @@ print_public_key(const public_key_t *pk)
 int verif_find_uv_branch(const quat_left_ideal_t *lideal); /* dim2id2iso.c */
 #endif
 
+#ifdef SQISIGN_SQISIGN2D_WEST_AC24_VERIF
+/* H3s signer dump helpers: an element of GF(p^2) as the hex of its canonical encoding (re,im; little-endian bytes) */
+static void
+verif_dump_fp2(const char *name, const fp2_t *x)
+{
+    unsigned char buf[FP2_ENCODED_BYTES];
+    fp2_encode(buf, x);
+    fprintf(stderr, " %s=", name);
+    for (int i = 0; i < FP2_ENCODED_BYTES; i++)
+        fprintf(stderr, "%02x", buf[i]);
+}
+static void
+verif_dump_j(const char *name, const ec_curve_t *E)
+{
+    fp2_t j;
+    ec_j_inv(&j, E);
+    verif_dump_fp2(name, &j);
+}
+static void
+verif_dump_x(const char *name, const ec_point_t *P)
+{
+    fp2_t t;
+    fp2_copy(&t, &P->z);
+    fp2_inv(&t);
+    fp2_mul(&t, &t, &P->x);
+    verif_dump_fp2(name, &t);
+}
+#endif
+
 int
 commit(ec_curve_t *E_com, ec_basis_t *basis_even_com, quat_left_ideal_t *lideal_com)
 {
@@ -954,6 +983,31 @@ verif_commit_done:;
                                pow_dim2_deg_resp + exp_diadic_val_full_resp + 2);
 
 
+#ifdef SQISIGN_SQISIGN2D_WEST_AC24_VERIF
+    /* H3s signer dump: the values the verifier has to reproduce (curves by j-invariant, the final basis on E_chall by
+       normalised x-coordinates), the kernel coefficients and the matrices of the bookkeeping */
+    if (verif_env_int("SQI_VERIF_TRACE", 0)) {
+        fprintf(stderr, "verif-sig:");
+        verif_dump_j("jcom", &E_com);
+        verif_dump_j("jchall", &Echall);
+        verif_dump_j("jchall2", &isog.codomain.E2);
+        verif_dump_j("jaux2", &E_aux2);
+        verif_dump_x("xP", &B_resp_two.P);
+        verif_dump_x("xQ", &B_resp_two.Q);
+        verif_dump_x("xPmQ", &B_resp_two.PmQ);
+        gmp_fprintf(stderr,
+                    " vecchall=%Zx,%Zx vecresp=%Zx,%Zx maux=%Zx,%Zx,%Zx,%Zx q=%Zx\n",
+                    vec_chall[0],
+                    vec_chall[1],
+                    vec_resp_two[0],
+                    vec_resp_two[1],
+                    mat_Baux2_to_Baux2_can[0][0],
+                    mat_Baux2_to_Baux2_can[0][1],
+                    mat_Baux2_to_Baux2_can[1][0],
+                    mat_Baux2_to_Baux2_can[1][1],
+                    degree_odd_resp);
+    }
+#endif
     // filling the output
     sig->backtracking = backtracking;
     sig->two_resp_length = exp_diadic_val_full_resp;
